@@ -526,7 +526,8 @@ func (r *vfLtRun) apply(s vfLtStep) {
 		r.settle()
 	case "garb", "sreset":
 		// a short-header datagram for the conn that cannot be decrypted; sreset ends with the
-		// stateless reset token the peer issued for its connection ID 1 during the handshake
+		// stateless reset token the peer's transport parameters gave for its first connection ID
+		// (valid once the conn has read them; a server conn never has one)
 		dst := c.connIDState.local[len(c.connIDState.local)-1].cid
 		b := append([]byte{headerFormShort | fixedBit}, dst...)
 		for len(b) < 60 {
@@ -534,7 +535,7 @@ func (r *vfLtRun) apply(s vfLtStep) {
 		}
 		k := "garb"
 		if s.K == "sreset" {
-			tok := testPeerStatelessResetToken(1)
+			tok := testPeerStatelessResetToken(0)
 			copy(b[len(b)-len(tok):], tok[:])
 			if c.connIDState.isValidStatelessResetToken(tok) {
 				k = "sreset"
@@ -612,10 +613,6 @@ var (
 	vfLtHsTO      = map[string]time.Duration{"def": 0, "none": -1, "a": 1500 * time.Millisecond, "b": 5 * time.Second}
 )
 
-func vfLtPickKey[V any](rnd *rand.Rand, m map[string]V, order []string) string {
-	return order[rnd.Intn(len(order))]
-}
-
 func (r *vfLtRun) run(sc vfLtScript) {
 	cfg := sc.Cfg
 	get := func(k, def string) string {
@@ -639,6 +636,12 @@ func (r *vfLtRun) run(sc vfLtScript) {
 		c.QLogLogger = nil
 	}, func(p *transportParameters) {
 		p.maxIdleTimeout = pi
+		if side == clientSide {
+			// the scripted server gives a stateless reset token for its first connection ID
+			// (the only one the conn honours); a client cannot give one
+			tok := testPeerStatelessResetToken(0)
+			p.statelessResetToken = tok[:]
+		}
 	})
 	r.tc = tc
 	c := tc.conn
